@@ -5,7 +5,11 @@ DevUuid == {"UuidIds"}
 TraceInit == tid \in 1..NTraces /\ l = 1 /\ InitWith(Traces[tid].scn.prog)
 \* the transport saw a request text: E.doc is its abstraction; wf: parses as a valid request (batch); ids_ok: ids present
 \* and pairwise distinct for calls, absent for notifications
-TSend    == IsEvent("Send") /\ Send /\ wire'[1] = E.doc /\ E.wf = TRUE /\ E.ids_ok = TRUE
+\* the transport is also told whether the document is a notification (nothing but notifications in it) and is handed the
+\* client-wide request arguments, overridden by those given for this very request (the hand-built `send` notation does that)
+TSend    == /\ IsEvent("Send") /\ Send /\ wire'[1] = E.doc /\ E.wf = TRUE /\ E.ids_ok = TRUE
+            /\ E.notif = (\A j \in DOMAIN prog.calls : prog.calls[j].notif)
+            /\ E.kw = (IF prog.notation = "send" THEN "override" ELSE "client")
 \* the dispatcher returned; E.execs = the server-side call log
 TServe   == IsEvent("Serve") /\ Serve /\ execLog' = E.execs
 TReturn  == IsEvent("Return") /\ Deliver /\ out' = [k |-> E.k, vals |-> E.vals, err |-> "na"]
